@@ -424,6 +424,10 @@ pub fn corpus() -> Vec<String> {
     for tail in ["", "# c\n", "@bad\n", "}\n", "`\n", "\"open\n", "b: 2\n", "---\nb: 2\n", "...\n", "- [\n"] {
         v.push(format!("a: 1\n...\n{tail}"));
     }
+    // text the scanner rejects right after a complete document that has no end marker
+    for t in ["[1]\n@bad\n", "{a: 1}\n`\n", "'s'\n}\n", "--- x\n@\n", "\"d\"\n]\n", "[1]\n---\n@\n"] {
+        v.push(t.to_string());
+    }
     v.push("- é\n...\n]\n".to_string());
     v.push("--- x\n...\n@\n".to_string());
     v
